@@ -4,6 +4,7 @@ package litefs
 
 import (
 	"sort"
+	"time"
 
 	"github.com/superfly/ltx"
 )
@@ -113,4 +114,17 @@ func (db *DB) VerifHaltLockID() int64 {
 		return curr.haltLock.ID
 	}
 	return 0
+}
+
+// VerifExpireHaltLock makes the halt lock currently granted on this node overdue,
+// as if its TTL had passed; the expiry itself is left to EnforceHaltLockExpiration.
+func (db *DB) VerifExpireHaltLock() {
+	curr := db.haltLockAndGuard.Load().(*haltLockAndGuard)
+	if curr == nil {
+		return
+	}
+	t := time.Now().Add(-time.Second)
+	hl := *curr.haltLock
+	hl.Expires = &t
+	db.haltLockAndGuard.CompareAndSwap(curr, &haltLockAndGuard{haltLock: &hl, guardSet: curr.guardSet})
 }
